@@ -167,6 +167,13 @@ def _bounded_task(arg) -> dict:
 
 def _any_task(job):
     kind, i, arg = job
+    crash = os.environ.get('VERIF_TEST_CRASH')          # self-test of the crash handling: "<kind><index>[:always]" makes that task's worker die
+    if crash and crash.split(':')[0] == f'{kind}{i}':
+        flag = os.path.join(os.environ.get('TMPDIR', '/tmp'), f'verif-crash-{os.getppid()}')
+        if crash.endswith(':always') or not os.path.exists(flag):
+            open(flag, 'w').close()
+            import signal
+            os.kill(os.getpid(), signal.SIGSEGV)
     return kind, i, (_bounded_task(arg) if kind == 'b' else _deductive_task(arg))
 
 
@@ -268,17 +275,88 @@ def main(argv=None) -> int:
     open_sigs = {k['sig'] for k in known if k.get('kind') == 'bounded' and k.get('status') == 'open'}
     early_stop = False
     ded_by_i, bnd_by_i = {}, {}
-    with ctxm.Pool(min(args.jobs, max(1, len(tasks_d) + len(tasks_b)))) as pool:
-        jobs = [('b', i, t) for i, t in enumerate(tasks_b)] + [('d', i, t) for i, t in enumerate(tasks_d)]
-        for kind, i, r in pool.imap_unordered(_any_task, jobs, chunksize=1):
-            (bnd_by_i if kind == 'b' else ded_by_i)[i] = r
-            if len(bnd_by_i) == len(tasks_b) and tasks_b and len(ded_by_i) < len(tasks_d) and os.environ.get('VERIF_NO_EARLY_STOP') != '1':
-                fresh = [v for rr in bnd_by_i.values() for v in rr.get('violation_list', [])
-                         if v['sig'] not in open_sigs and not v['sig'].startswith('encoder.')]
-                if fresh and not any(rr.get('error') for rr in bnd_by_i.values()):
-                    early_stop = True
-                    pool.terminate()
-                    break
+    # Workers can die (a segmentation fault inside the solver library has been observed once in several thousand runs): a pool that loses a worker
+    # would wait for its task for ever, so tasks run under an executor that reports a broken pool; unfinished tasks are then re-run in a fresh pool
+    # (twice at most), and the whole run has a deadline after which whatever is missing is reported as a checker failure - never a hang.
+    import concurrent.futures as cf
+    jobs = [('b', i, t) for i, t in enumerate(tasks_b)] + [('d', i, t) for i, t in enumerate(tasks_d)]
+    pending = list(jobs)
+    crashed_once = set()
+    deadline = time.time() + float(os.environ.get('VERIF_DEADLINE_S', '2400' if args.tier == 'quick' else '10800'))
+    run_notes: List[str] = []
+    for attempt in range(3):
+        if not pending or early_stop:
+            break
+        ex = cf.ProcessPoolExecutor(max_workers=min(args.jobs, max(1, len(pending))), mp_context=ctxm)
+        futs = {ex.submit(_any_task, j): j for j in pending}
+        broken = False
+        try:
+            for fut in cf.as_completed(futs, timeout=max(1.0, deadline - time.time())):
+                try:
+                    kind, i, r = fut.result()
+                except Exception as exn:  # noqa: BLE001 - BrokenProcessPool and friends: the task did not finish
+                    broken = True
+                    continue
+                (bnd_by_i if kind == 'b' else ded_by_i)[i] = r
+                if len(bnd_by_i) == len(tasks_b) and tasks_b and len(ded_by_i) < len(tasks_d) and os.environ.get('VERIF_NO_EARLY_STOP') != '1':
+                    fresh = [v for rr in bnd_by_i.values() for v in rr.get('violation_list', [])
+                             if v['sig'] not in open_sigs and not v['sig'].startswith('encoder.')]
+                    if fresh and not any(rr.get('error') for rr in bnd_by_i.values()):
+                        early_stop = True
+                        break
+        except cf.TimeoutError:
+            run_notes.append(f'CHECKER-ERROR run deadline reached with {len([j for j in pending if (j[1] not in (bnd_by_i if j[0] == "b" else ded_by_i))])} task(s) unfinished')
+            broken = True
+        finally:
+            for f_ in futs:
+                f_.cancel()
+            procs = list(getattr(ex, '_processes', {}).values())
+            ex.shutdown(wait=False, cancel_futures=True)
+            for pr in procs:
+                try:
+                    pr.kill()
+                except Exception:  # noqa: BLE001
+                    pass
+        pending = [j for j in jobs if j[1] not in (bnd_by_i if j[0] == 'b' else ded_by_i)]
+        if not broken or time.time() >= deadline:
+            break
+        run_notes.append(f'note: a worker process died (attempt {attempt + 1}); {len(pending)} unfinished task(s) are run again in a fresh pool')
+        if attempt == 1 and pending:
+            # last attempt: every unfinished task in a process of its own, so that a task that kills its worker again loses only itself
+            def isolated(job):
+                e1 = cf.ProcessPoolExecutor(max_workers=1, mp_context=ctxm)
+                try:
+                    return e1.submit(_any_task, job).result(timeout=max(1.0, deadline - time.time()))
+                except Exception:  # noqa: BLE001
+                    return None
+                finally:
+                    procs1 = list(getattr(e1, '_processes', {}).values())
+                    e1.shutdown(wait=False, cancel_futures=True)
+                    for pr in procs1:
+                        try:
+                            pr.kill()
+                        except Exception:  # noqa: BLE001
+                            pass
+            with cf.ThreadPoolExecutor(max_workers=min(args.jobs, len(pending))) as tp:
+                for out_ in tp.map(isolated, pending):
+                    if out_ is not None:
+                        kind, i, r = out_
+                        (bnd_by_i if kind == 'b' else ded_by_i)[i] = r
+            pending = [j for j in jobs if j[1] not in (bnd_by_i if j[0] == 'b' else ded_by_i)]
+            break
+    if pending and not early_stop:
+        for kind, i, t in pending:
+            err = {'error': 'worker process died or run deadline reached before this task finished (no result)', 'obligations': [], 'out_of_subset': [], 'assumptions': [],
+                   'covers': [], 'outcomes': {}, 'paths': 0, 'sha256': '', 'seconds': 0, 'gen_seconds': 0, 'scenarios': []}
+            if kind == 'd':
+                try:
+                    qn = prop.contracts[t[1]].qualname
+                except Exception:  # noqa: BLE001
+                    qn = f'{pid}#{t[1]}'
+                ded_by_i[i] = dict(err, contract=qn, scenario=t[3], shard=t[4], crashed=True)
+            else:
+                bnd_by_i[i] = {'name': f'{pid}#bounded{t[1]}', 'error': err['error'], 'evaluations': 0, 'distinct_nontrivial': 0, 'violations': 0, 'violation_list': [], 'covers': {},
+                               'required_covers': [], 'samples': [], 'bound': '', 'seconds': 0}
     bnd = [bnd_by_i[i] for i in sorted(bnd_by_i)]
     ded = [ded_by_i[i] for i in sorted(ded_by_i)]
 
@@ -301,7 +379,7 @@ def main(argv=None) -> int:
         if not r.get('error'):
             continue
         lost = []
-        if baseline is not None and baseline['tree'] != cur_tree:
+        if baseline is not None and baseline['tree'] != cur_tree and not r.get('crashed'):
             pref = f"{r['contract']}|{r['scenario']}|"
             lost = [k for k in baseline['discharged'] if k.startswith(pref)]
         if lost:
@@ -344,6 +422,9 @@ def main(argv=None) -> int:
                          f"from the current source ({str(r['out_of_subset'][0])[:160]})")
     for e in checker_errors:
         lines.append('CHECKER-ERROR ' + e)
+    lines.extend(run_notes)
+    if any(n.startswith('CHECKER-ERROR') for n in run_notes):
+        checker_errors.append('deadline')
 
     all_obs = [dict(o, contract=r['contract']) for r in ded for o in r['obligations']]
     n_ob = len(all_obs)
